@@ -139,7 +139,7 @@ VS = ['v%d' % i for i in range(N)]
 
 def rng(t, names):
     lo, hi = sim.RANGE[t.__name__]
-    return 'all(%d <= v <= %d for v in (%s,))' % (lo, hi, ", ".join(names))
+    return " and ".join('%d <= %s <= %d' % (lo, n, hi) for n in names)
 
 
 QUICK_READ = {('SINT', 'read_tag', 'sym'), ('UINT', 'read_frag', 'num'), ('DINT', 'read_frag', 'sym'),
